@@ -132,6 +132,21 @@ def generate():
     items.append(str_def("src_accessor_get", norm(function_body(mhpp, r"ReusableAccessor<T>::get\s*\("))))
     items.append(str_def("src_create_with_meta", norm(function_body(th, r"static TT\* create_with_allocation_metadata\s*\("))))
 
+    # ---- protobuf messages: the capacity metadata round trip (message.cpp / message.h)
+    mc = strip_comments(read("babylon/reusable/message.cpp"))
+    F = r"MessageAllocationMetadata::FieldAllocationMetadata::"
+    items.append(str_def("src_msg_update", norm(function_body(mc, r"void MessageAllocationMetadata::update\s*\("))))
+    items.append(str_def("src_msg_reserve", norm(function_body(mc, r"void MessageAllocationMetadata::reserve\s*\("))))
+    items.append(str_def("src_msg_field_update", norm(function_body(
+        mc, F + r"update\s*\(\s*const ::google::protobuf::Message& message,\s*const ::google::protobuf::Reflection\* reflection"))))
+    items.append(str_def("src_msg_field_update_string", norm(function_body(mc, F + r"update\s*\(\s*const ::std::string& str"))))
+    items.append(str_def("src_msg_field_update_message", norm(function_body(
+        mc, F + r"update\s*\(\s*const ::google::protobuf::Message& message\s*\)"))))
+    items.append(str_def("src_msg_field_reserve", norm(function_body(mc, F + r"reserve\s*\("))))
+    mhh = strip_comments(read("babylon/reusable/message.h"))
+    items.append(str_def("src_msg_construct_with_meta", norm(function_body(mhh, r"static void construct_with_allocation_metadata\s*\("))))
+    items.append(str_def("src_msg_create_with_meta", norm(function_body(mhh, r"static Message\* create_with_allocation_metadata\s*\("))))
+
     # ---- strings: stable_reserve (generic version, the one compiled here) and the libstdc++ facts
     sh = strip_comments(read(SHPP))
     items.append(str_def("src_stable_reserve", norm(function_body(sh, r"inline void stable_reserve\s*\(\s*T& string,"))))
